@@ -70,6 +70,10 @@ def LMat.force (M : LMat R) : LMat R :=
       | some r => (match r[j]? with | some v => v | none => 0)
       | none => 0 }
 
+/-- `X · (Y · Z)` with both products tabulated — how the driver evaluates `F · A · E`
+    (`Props/C07.mul3Forced_e`: same entries as `X.mul (Y.mul Z)` inside the shape). -/
+def LMat.mul3Forced (X Y Z : LMat R) : LMat R := (X.mul (Y.mul Z).force).force
+
 /-- Leaf data: a matrix given by its rows (zero outside the data). -/
 def LMat.ofRows (rows cols : Nat) (a : Array (Array R)) : LMat R where
   rows := rows
